@@ -207,8 +207,11 @@ func init() {
 	drivers["c13"] = func(d *Drv) {
 		if d.Thorough() {
 			marshalDriver(d, all8[:1], 300000, 1<<20)
+			marshalDriver(d, all8[1:], 6000, 1<<12)
 		} else {
 			marshalDriver(d, all8[:1], 8000, 1<<14)
+			// the renderings do not depend on the marshalling switches: the other seven configurations
+			marshalDriver(d, all8[1:], 200, 1<<8)
 		}
 	}
 
@@ -226,6 +229,14 @@ func init() {
 			doc, wf := abstractDoc([]byte(in))
 			d.Do(Ev{"op": "size.parse", "in": B(in), "rule": 6, "T": []string{"s", "b"}[len(in)%2], "doc": doc, "wf": wf})
 			d.S.Boundary()
+		}
+		if d.Mine(1) {
+			// the JSON number form: a number of bytes
+			for _, v := range []string{"0", "1", "-1", "-0", "-9223372036854775808", "-18446744073709551615", "9223372036854775807", "9223372036854775808", "18446744073709551615",
+				"18446744073709551616", "1.5", "1.0", "1e3", "-1e3", "1e-3", "36893488147419103232", "0.0", "00", "-", "1E19"} {
+				parseJ(v)
+				parseJ(" " + v + "\n")
+			}
 		}
 		for ui, u := range allUnits {
 			if !d.Mine(ui + 3) {
